@@ -44,6 +44,9 @@ type stressRes struct {
 	Dumps      int64 `json:"dumps"`
 	Reconnects int64 `json:"reconnects"`
 	Bad        int64 `json:"bad"`        // lookups returning neither / both / a wrong kind / panicking
+	Overlap    int64 `json:"overlap"`    // invocations of one update handler that overlapped in time
+	Regress    int64 `json:"regress"`    // invocations of one update handler that saw an older cluster set after a newer one
+	Probes     int64 `json:"probes"`     // probe handlers registered
 	Unfinished bool  `json:"unfinished"` // some goroutine had not returned 10 s after the stop signal
 }
 
@@ -51,6 +54,7 @@ func cdsResponse(ver int, names []string) *discoveryv3.DiscoveryResponse {
 	var anys []*anypb.Any
 	for i, n := range names {
 		cl := &clusterv3.Cluster{Name: n, ClusterDiscoveryType: &clusterv3.Cluster_Type{Type: clusterv3.Cluster_EDS},
+			EdsClusterConfig: &clusterv3.Cluster_EdsClusterConfig{ServiceName: fmt.Sprintf("v%09d", ver)},
 			OutlierDetection: &clusterv3.OutlierDetection{FailurePercentageThreshold: wrapperspb.UInt32(uint32(10 + i)), FailurePercentageRequestVolume: wrapperspb.UInt32(uint32(ver%7 + 1))}}
 		a, err := anypb.New(cl)
 		if err != nil {
@@ -186,17 +190,19 @@ func init() {
 			}
 			time.Sleep(time.Duration(r.Intn(3)) * time.Millisecond)
 		})
-		// direct updates of the merge types
-		worker(func(r *rand.Rand) {
-			n := names[r.Intn(len(names))]
-			if r.Intn(2) == 0 {
-				m.UpdateResource(xdsresource.RouteConfigType, map[string]xdsresource.Resource{n: stampedResource("rds", uint64(r.Intn(100)))}, "v")
-			} else {
-				m.UpdateResource(xdsresource.EndpointsType, map[string]xdsresource.Resource{n: stampedResource("eds", uint64(r.Intn(3)))}, "v")
-			}
-			atomic.AddInt64(&res.Updates, 1)
-			time.Sleep(time.Duration(r.Intn(2)) * time.Millisecond)
-		})
+		// direct updates of the merge types (two callers: UpdateResource calls of one type can meet)
+		for i := 0; i < 2; i++ {
+			worker(func(r *rand.Rand) {
+				n := names[r.Intn(len(names))]
+				if r.Intn(2) == 0 {
+					m.UpdateResource(xdsresource.RouteConfigType, map[string]xdsresource.Resource{n: stampedResource("rds", uint64(r.Intn(100)))}, "v")
+				} else {
+					m.UpdateResource(xdsresource.EndpointsType, map[string]xdsresource.Resource{n: stampedResource("eds", uint64(r.Intn(3)))}, "v")
+				}
+				atomic.AddInt64(&res.Updates, 1)
+				time.Sleep(time.Duration(r.Intn(2)) * time.Millisecond)
+			})
+		}
 		// registrations of the real consumers, dumps, tagged views
 		worker(func(r *rand.Rand) {
 			s := newSuitesImpl()
@@ -213,6 +219,51 @@ func init() {
 				m.VerifWatched(k.rt)
 			}
 			time.Sleep(time.Duration(3+r.Intn(5)) * time.Millisecond)
+		})
+		// probe handlers on the cluster type: each checks that its own invocations never overlap and never go
+		// back in time (every cluster of a response names the response's version as its EDS service)
+		worker(func(r *rand.Rand) {
+			if atomic.LoadInt64(&res.Probes) >= 60 {
+				time.Sleep(5 * time.Millisecond)
+				return
+			}
+			var inFlight, last, calls int64
+			m.RegisterXDSUpdateHandler(xdsresource.ClusterType, func(view map[string]xdsresource.Resource) {
+				if atomic.AddInt64(&inFlight, 1) > 1 {
+					atomic.AddInt64(&res.Overlap, 1)
+				}
+				defer atomic.AddInt64(&inFlight, -1)
+				var v int64 = -1
+				for _, x := range view {
+					if cl, ok := x.(*xdsresource.ClusterResource); ok && cl != nil {
+						var n int64
+						if _, err := fmt.Sscanf(cl.EndpointName, "v%d", &n); err == nil && n > v {
+							v = n
+						}
+					}
+				}
+				if atomic.AddInt64(&calls, 1) == 1 {
+					time.Sleep(time.Millisecond) // handlers are user code and may be slow (here: the first run)
+				}
+				if v >= 0 {
+					if prev := atomic.LoadInt64(&last); v < prev {
+						atomic.AddInt64(&res.Regress, 1)
+					} else {
+						atomic.StoreInt64(&last, v)
+					}
+				}
+			})
+			// and one on the route tables, updated by two callers at once: its invocations must still be serialised
+			var inFlightR int64
+			m.RegisterXDSUpdateHandler(xdsresource.RouteConfigType, func(view map[string]xdsresource.Resource) {
+				if atomic.AddInt64(&inFlightR, 1) > 1 {
+					atomic.AddInt64(&res.Overlap, 1)
+				}
+				time.Sleep(20 * time.Microsecond)
+				atomic.AddInt64(&inFlightR, -1)
+			})
+			atomic.AddInt64(&res.Probes, 1)
+			time.Sleep(time.Duration(5+r.Intn(15)) * time.Millisecond)
 		})
 		// stream failures
 		worker(func(r *rand.Rand) {
